@@ -184,7 +184,10 @@ def writer_text(F, rights, side, ep):
          ("call", "chess::gamestate::GameState::en_passant", (ST,)): ("lit", ep)}
     for k, v in rights.items():
         a[("call", "chess::gamestate::GameState::%s_castling" % k, (ST,))] = ("lit", v)
-    v = hir.fold(cache, a, discr_map(F), hir.table_helpers(F))
+    from .common import chess_evalcalls
+    ev = chess_evalcalls(None, {})
+    v = hir.fold(cache, a, discr_map(F), hir.table_helpers(F), ev)
+    v = hir.fold(v, a, discr_map(F), hir.table_helpers(F), ev)
     if not (isinstance(v, tuple) and v and v[0] == "str"):
         return None, "summary does not fold to a string: %s" % hir.fmt(v, 160)
     parts = []
@@ -239,8 +242,10 @@ def writer_fields(ctx, F, em):
                         bad["castling"].append((want_c, f[2]))
                     if f[3] != want_e:
                         bad["ep"].append((side, ep, want_e, f[3]))
-                    if not (f[4].isdigit() and f[5] == "\x00" and len(terms) == 1):
-                        bad["tail"].append((f[4], f[5].replace("\x00", "<?>")))
+                    # each counter is a literal number or one computed value (checked below to be an unsigned number's text)
+                    n_t = sum(1 for x_ in (f[4], f[5]) if x_ == "\x00")
+                    if not all(x_.isdigit() or x_ == "\x00" for x_ in (f[4], f[5])) or len(terms) != n_t:
+                        bad["tail"].append((f[4].replace("\x00", "<?>"), f[5].replace("\x00", "<?>")))
                     fm_terms |= set(terms)
     except (hir.Unsupported, ValueError, KeyError, RecursionError) as e:
         err = str(e)
@@ -266,11 +271,17 @@ def writer_fields(ctx, F, em):
     ctx.check("C11.T6", "writer:en-passant-file-and-dash", not bad["ep"], fn=WRITER, file=fn["file"],
               what="en-passant field must be file 'a'+ep followed by the rank when ep < 8, '-' otherwise",
               expected="'a'+ep, rank | '-'", found=bad["ep"][:4] or "ep 0..8 x both sides")
-    ctx.check("C11.T7", "writer:halfmove-field", not [x for x in bad["tail"] if not x[0].isdigit()], fn=WRITER, file=fn["file"],
-              what="fifth field (half-move clock) must be a number", found=bad["tail"][:2] or "ok")
-    fm_ok = not bad["tail"] and len(fm_terms) == 1 and list(fm_terms)[0].endswith("to_string(((<T, A>::len(self.move_stack) / 2) + 1))")
-    ctx.check("C11.T7", "writer:fullmove-field", fm_ok, fn=WRITER, file=fn["file"], what="sixth field must be len(move_stack)/2 + 1",
-              expected="to_string(len(move_stack) / 2 + 1)", found=sorted(fm_terms)[:2])
+    ctx.check("C11.T7", "writer:halfmove-field", not bad["tail"], fn=WRITER, file=fn["file"],
+              what="fifth and sixth field (half-move clock, full-move number) must each be a number", found=bad["tail"][:2] or "ok")
+    # a computed counter is the decimal text of an unsigned integer: every to_string() of the writer is applied to an unsigned value
+    UNS = ("u8", "u16", "u32", "u64", "u128", "usize")
+    ts = [n for n, anc in hir.walk(fn["hir"]["body"]) if n.get("k") == "MethodCall" and n.get("name") == "to_string"
+          and not any(a_.get("k") == "Loop" for a_ in anc)]        # (the ones inside the placement loops print run lengths)
+    ts_bad = [str(hir.strip(n["recv"]).get("ty")) for n in ts if str(hir.strip(n["recv"]).get("ty")).lstrip("&") not in UNS]
+    fm_ok = not bad["tail"] and len(fm_terms) >= 1 and all("to_string(" in t_ for t_ in fm_terms) and not ts_bad
+    ctx.check("C11.T7", "writer:fullmove-field", fm_ok, fn=WRITER, file=fn["file"],
+              what="a counter field that is computed must be the decimal text of an unsigned number (`<unsigned>.to_string()`)",
+              expected="to_string(<unsigned integer>)", found={"terms": sorted(fm_terms)[:2], "to_string of": ts_bad})
 
 
 def t8_board_dependent_rejections(ctx, F, rule="C11.T8"):
@@ -506,10 +517,141 @@ def reader_castling_letters(ctx, F, rule):
                 ctab = (t, n)
     exp = {"K": "set_white_king_castling_true", "Q": "set_white_queen_castling_true",
            "k": "set_black_king_castling_true", "q": "set_black_queen_castling_true"}
+    castling_letters_on_consistent_boards(ctx, F, fn, exp, rule)
+    if not (ctab is not None and ctab[0] == exp):
+        # not one letter -> setter table: decide per letter which setters can be reached
+        bv = castling_letters_by_cases(F, fn, exp)
+        if bv is not None:
+            ctx.check(rule, "reader:castling-letters", not bv, fn=READER, file=fn["file"], line=hir.line(ctab[1]) if ctab else None,
+                      what="castling letters must grant the right the writer prints them for (K, Q, k, q = bits 4, 5, 6, 7 of the state byte "
+                           "that indexes the published state keys); decided per letter over the setter calls that can be reached",
+                      expected=exp, found=bv)
+            return
     ctx.check(rule, "reader:castling-letters", ctab is not None and ctab[0] == exp, fn=READER, file=fn["file"],
               line=hir.line(ctab[1]) if ctab else None,
               what="castling letters must grant the right the writer prints them for (K, Q, k, q = bits 4, 5, 6, 7 of the state byte that "
                    "indexes the published state keys)", expected=exp, found=ctab[0] if ctab else None)
+
+
+def castling_letters_on_consistent_boards(ctx, F, fn, exp, rule):
+    """A castling letter of an exported position stands for a king and a rook on their home squares; an importer that makes the
+    right depend on the board must grant it on every such board: the guards of the letter's setter call, folded under letter = c
+    and a board that has the king and that rook at home (nothing on the other corners), must not come out false."""
+    from .common import chess_evalcalls, position_values
+    body = fn["hir"]["body"]
+    sym = hir.Sym(hir.Env(fn["hir"], F), F, through=True)
+    D = discr_map(F)
+    homes = {"K": ("White", (0, 4), (0, 7)), "Q": ("White", (0, 4), (0, 0)), "k": ("Black", (7, 4), (7, 7)), "q": ("Black", (7, 4), (7, 0))}
+    letter_of = {v: k for k, v in exp.items()}
+    SOME, NONE = "std::prelude::v1::Some", ("variant", "std::prelude::v1::None")
+
+    def pc(kind, owner):
+        return ("ctor", SOME, (("struct", "chess::piece::Piece", (("owner", ("variant", PL + owner)), ("piece_type", ("variant", PT + kind)))),))
+    for c, anc in hir.walk(body):
+        if not (c.get("k") == "MethodCall" and (hir.callee_of(c) or c["name"]).rsplit("::", 1)[-1] in letter_of):
+            continue
+        ch = letter_of[(hir.callee_of(c) or c["name"]).rsplit("::", 1)[-1]]
+        t = position_values(hir.resolve_consts(hir.guards_term(hir.guards_of(c, body, sym) or []), F), F)
+        cvars = set()
+        for n, _ in hir.walk(body):
+            to = n.get("to") or {}
+            if n.get("k") == "Path" and to.get("res") == "local" and str(n.get("ty")) == "char" and hir.contains(t, ("var", to.get("name"))):
+                cvars.add(to["name"])
+        if len(cvars) != 1:
+            continue
+        owner, ksq, rsq = homes[ch]
+        a = {("var", next(iter(cvars))): ("lit", ch)}
+        board = {(r_, c_): NONE for r_ in range(8) for c_ in range(8)}
+        board[ksq] = pc("King", owner)
+        board[rsq] = pc("Rook", owner)
+        bases = {x[1] for x in hir.subterms(t) if isinstance(x, tuple) and x[:1] == ("index",) and "board" in hir.fmt(x[1], 40)}
+        for (r_, c_), v_ in board.items():
+            for b_ in bases:
+                a[("index", b_, ("lit", r_ * 8 + c_))] = v_
+        ev = chess_evalcalls(board)
+        v = hir.fold(hir.fold(t, a, D, hir.table_helpers(F), ev), a, D, hir.table_helpers(F), ev)
+        ctx.check(rule, "reader:castling-letter-granted-with-king-and-rook-at-home:%s" % ch, not (v == ("lit", False) or hir.all_leaves_false(v)),
+                  fn=READER, file=fn["file"], line=hir.line(c),
+                  what="the importer does not grant the right `%s` on a board that has the %s king and that rook on their home squares: the "
+                       "exported text of such a position re-imports without the right" % (ch, owner),
+                  expected="granted", found=hir.fmt(v, 120))
+
+
+def castling_letters_by_cases(F, fn, exp):
+    """For every character c of a castling field: the castling setters whose call site can be reached when the letter being looked
+    at is c (lexical guards incl. earlier statements that leave on some letters, folded under letter = c).  [] when K, Q, k, q
+    reach exactly their own setter and no other character reaches any; failing letters otherwise; None when the setters are not
+    guarded by one character variable."""
+    body = fn["hir"]["body"]
+    sym = hir.Sym(hir.Env(fn["hir"], F), F)
+    sites = [(c, anc) for c, anc in hir.walk(body) if c.get("k") == "MethodCall" and
+             (hir.callee_of(c) or c["name"]).rsplit("::", 1)[-1] in set(exp.values())]
+    if not sites:
+        return None
+    terms = []
+    chars = set()
+    for c, anc in sites:
+        g = hir.guards_of(c, body, sym) or []
+        t = hir.guards_term(g)
+        terms.append(((hir.callee_of(c) or c["name"]).rsplit("::", 1)[-1], t))
+        for x, _ in hir.walk(body):
+            pass
+        for st in hir.subterms(t):
+            if isinstance(st, tuple) and st[:1] == ("var",):
+                chars.add(st[1])
+    # the letter variable: a local of type char that the guards mention
+    cvars = set()
+    for n, _ in hir.walk(body):
+        to = n.get("to") or {}
+        if n.get("k") == "Path" and to.get("res") == "local" and to.get("name") in chars and str(n.get("ty")) == "char":
+            cvars.add(to["name"])
+    if len(cvars) != 1:
+        return None
+    cv = ("var", next(iter(cvars)))
+    bad = []
+    for ch in "KQkq-xAa1 /w":
+        reach = set()
+        for name, t in terms:
+            v = hir.fold(t, {cv: ("lit", ch)})
+            if not (v == ("lit", False) or hir.all_leaves_false(v)):
+                reach.add(name)
+        want = {exp[ch]} if ch in exp else set()
+        if reach != want:
+            bad.append((ch, sorted(reach)))
+    return bad
+
+
+def castling_unknown_refused(F, fn, exp=None):
+    """Characters other than KQkq- in the castling field: for each, an error return inside the letter loop is definitely reached
+    (its lexical guards fold to true under letter = c).  [] = all refused, list of characters that are not, None = no letter loop."""
+    exp = exp or {"K": "set_white_king_castling_true", "Q": "set_white_queen_castling_true",
+                  "k": "set_black_king_castling_true", "q": "set_black_queen_castling_true"}
+    body = fn["hir"]["body"]
+    sym = hir.Sym(hir.Env(fn["hir"], F), F)
+    sites = [(c, anc) for c, anc in hir.walk(body) if c.get("k") == "MethodCall" and
+             (hir.callee_of(c) or c["name"]).rsplit("::", 1)[-1] in set(exp.values())]
+    loops = []
+    for c, anc in sites:
+        lp = [a for a in anc if a.get("k") == "Loop"]
+        if lp and not any(lp[-1] is x for x in loops):
+            loops.append(lp[-1])
+    if len(loops) != 1:
+        return None
+    loop = loops[0]
+    cvars = set()
+    for n, _ in hir.walk(loop):
+        to = n.get("to") or {}
+        if n.get("k") == "Path" and to.get("res") == "local" and str(n.get("ty")) == "char":
+            cvars.add(to["name"])
+    if len(cvars) != 1:
+        return None
+    cv = ("var", next(iter(cvars)))
+    rets = [(n, hir.guards_term(hir.guards_of(n, loop, sym) or [])) for n, _ in hir.walk(loop) if n.get("k") == "Ret"]
+    bad = []
+    for ch in "xAa1 /w?":
+        if not any(hir.fold(t, {cv: ("lit", ch)}) == ("lit", True) for _, t in rets):
+            bad.append(ch)
+    return bad
 
 
 def reader_rest(ctx, F, fn, body, sym):
